@@ -81,6 +81,11 @@ static void case_copy_adjust(void)
 		for (i = 0; i < n; i++)
 			if (r[i] == 0)
 				r[i] = ' ';
+	if (vrng_chance(30) && n >= 3) {	/* the usual shape of a title field: text, blanks, NUL padding */
+		int tl = vrng_range(0, n - 1), bl = vrng_range(0, n - tl);
+		for (i = 0; i < rl; i++)
+			r[i] = i < tl ? (unsigned char)vrng_range(33, 126) : i < tl + bl ? ' ' : 0;
+	}
 	memset(s, 0xCC, sizeof(s));
 	libxmp_copy_adjust((char *)s, r, n);
 	printf("Q ca %d ", n);
@@ -124,6 +129,11 @@ static void case_read_title(void)
 	for (i = 0; i < len; i++)
 		data[i] = vrng_chance(15) ? ' ' : rnd_byte();
 	pos = vrng_range(0, len);
+	if (vrng_chance(30)) {		/* text, blanks, NUL padding from pos on */
+		int tl = vrng_range(0, 12), bl = vrng_range(0, 8);
+		for (i = pos; i < len; i++)
+			data[i] = i < pos + tl ? (unsigned char)vrng_range(33, 126) : i < pos + tl + bl ? ' ' : 0;
+	}
 	s = vrng_chance(10) ? vrng_range(-3, -1) : vrng_chance(15) ? vrng_range(60, 80) : vrng_range(0, 40);
 	if (use_file) {
 		fp = fmemopen(data, len, "rb");
